@@ -59,6 +59,10 @@ type Reader struct {
 	header   *Header
 	channels map[uint16]*Channel
 
+	// dataStart is the stream offset of the first record after the header, or -1 when the
+	// source is not seekable.
+	dataStart int64
+
 	info *Info
 }
 
@@ -159,6 +163,11 @@ func (r *Reader) Messages(
 		if !info.CanReadMessagesUsingIndex() {
 			if options.Order != FileOrder {
 				return nil, fmt.Errorf("no index available, only file-order reads are supported")
+			}
+			// the sequential read covers the whole file, whatever earlier calls on this
+			// reader (Info, GetMetadata, ...) did to the stream position.
+			if r.dataStart >= 0 {
+				startPos = r.dataStart
 			}
 			_, err = r.rs.Seek(startPos, io.SeekStart)
 			if err != nil {
@@ -267,11 +276,18 @@ func NewReader(r io.Reader) (*Reader, error) {
 	if err != nil {
 		return nil, err
 	}
+	dataStart := int64(-1)
+	if rs != nil {
+		if pos, err := rs.Seek(0, io.SeekCurrent); err == nil {
+			dataStart = pos
+		}
+	}
 	return &Reader{
-		l:        lexer,
-		r:        r,
-		rs:       rs,
-		header:   header,
-		channels: make(map[uint16]*Channel),
+		l:         lexer,
+		r:         r,
+		rs:        rs,
+		header:    header,
+		channels:  make(map[uint16]*Channel),
+		dataStart: dataStart,
 	}, nil
 }
